@@ -1,6 +1,8 @@
 import ScnrVerif.Model.Iter
 import ScnrVerif.Model.SpecFind
 import ScnrVerif.Model.SpecIter
+import ScnrVerif.Model.Equiv
+import Std.Data.HashMap
 /-!
 # Line-protocol driver for the executable model (`lake exe scnr_model < case.in`)
 
@@ -13,6 +15,7 @@ inductive Target where
   | none
   | mode (m : Nat)
   | la (m : Nat) (tid : Nat)
+  | aux (i : Nat)
 
 /-- Independent specification state of an iterator: mode, cursor and the largest consumed offset.
     `known = false` after an operation whose effect the properties leave open. -/
@@ -32,6 +35,14 @@ structure DState where
   useTable : Bool := false
   /-- per mode: byte position ↦ (tid, len) -/
   table : Array (Array (Option (Nat × Nat))) := #[]
+  /-- reference class tables (per leaf of the reference regular expressions) -/
+  rtables : Array (List (Nat × Nat)) := #[]
+  /-- per mode: patterns `(tid, re)` in priority order -/
+  pats : Array (List (Nat × Re)) := #[]
+  /-- per mode: lookahead patterns `(tid, re)` -/
+  lapats : Array (List (Nat × Re)) := #[]
+  /-- auxiliary automata (minimizer input / output) -/
+  aux : Array Dfa := #[]
   iters : Array Iter := #[]
   specs : Array SpecIt := #[]
   /-- the last command line (for spec verdicts on the real result that follows as `expect`) -/
@@ -69,6 +80,8 @@ def updTarget (st : DState) (f : Dfa → Dfa) : DState :=
   | .mode m =>
     let ms := ensure st.modes m ⟨emptyDfa, []⟩
     { st with modes := ms.modify m fun M => { M with dfa := f M.dfa } }
+  | .aux i =>
+    { st with aux := (ensure st.aux i emptyDfa).modify i f }
   | .la m tid =>
     let ms := ensure st.modes m ⟨emptyDfa, []⟩
     { st with modes := ms.modify m fun M =>
@@ -243,6 +256,92 @@ def specCommand (st : DState) (ws : List String) : Array SpecIt :=
     | _, _ => sp
   | _ => sp
 
+/-- Parser of the prefix notation of reference ASTs: `E | L id | C n .. | A n .. | R min max|inf x`. -/
+partial def parseAst : List String → Option (Ast × List String)
+  | "E" :: r => some (.empty, r)
+  | "L" :: i :: r => i.toNat?.map fun i => (.leaf i, r)
+  | "C" :: n :: r => n.toNat?.bind fun n => (parseMany n r).map fun (xs, r') => (.concat xs, r')
+  | "A" :: n :: r => n.toNat?.bind fun n => (parseMany n r).map fun (xs, r') => (.alt xs, r')
+  | "R" :: mn :: mx :: r =>
+    mn.toNat?.bind fun mn =>
+      let mx' : Option (Option Nat) := if mx == "inf" then some none else mx.toNat?.map some
+      mx'.bind fun mx' => (parseAst r).map fun (x, r') => (.rep mn mx' x, r')
+  | _ => none
+where
+  parseMany : Nat → List String → Option (List Ast × List String)
+    | 0, r => some ([], r)
+    | n + 1, r => (parseAst r).bind fun (x, r') => (parseMany n r').map fun (xs, r'') => (x :: xs, r'')
+
+def showWord (w : List Nat) : String := " ".intercalate (w.map toString)
+
+/-- State of the fast (untrusted) explorer: pairs, their index, successor hints, BFS parents. -/
+structure ExpSt (σ τ : Type) [BEq σ] [BEq τ] [Hashable σ] [Hashable τ] where
+  V : Array (σ × τ) := #[]
+  idx : Std.HashMap (σ × τ) Nat := {}
+  hints : Array (Array Nat) := #[]
+  parent : Array (Nat × Nat) := #[]   -- (parent index + 1, or 0 for a successor of the initial pair; rep)
+
+/-- Untrusted breadth-first exploration with hashing; `none` if more than `maxPairs` pairs. -/
+partial def exploreFast {σ τ : Type} [BEq σ] [BEq τ] [Hashable σ] [Hashable τ] (X : Sys σ) (Y : Sys τ)
+    (reps : List Nat) (x0 : σ) (y0 : τ) (maxPairs : Nat) : Option (ExpSt σ τ × Array Nat) := Id.run do
+  let mut st : ExpSt σ τ := {}
+  -- successors of the initial pair
+  let mut h0 : Array Nat := #[]
+  for r in reps do
+    let q := (X.step r x0, Y.step r y0)
+    match st.idx[q]? with
+    | some j => h0 := h0.push j
+    | none =>
+      let j := st.V.size
+      st := { st with V := st.V.push q, idx := st.idx.insert q j, parent := st.parent.push (0, r) }
+      h0 := h0.push j
+  let mut i := 0
+  while i < st.V.size do
+    if st.V.size > maxPairs then return none
+    let p := st.V.getD i (x0, y0)
+    let mut hi : Array Nat := #[]
+    for r in reps do
+      let q := (X.step r p.1, Y.step r p.2)
+      match st.idx[q]? with
+      | some j => hi := hi.push j
+      | none =>
+        let j := st.V.size
+        st := { st with V := st.V.push q, idx := st.idx.insert q j, parent := st.parent.push (i + 1, r) }
+        hi := hi.push j
+    st := { st with hints := st.hints.push hi }
+    i := i + 1
+  return some (st, h0)
+
+/-- The word leading to pair `i` (for the replay). -/
+partial def wordTo {σ τ : Type} [BEq σ] [BEq τ] [Hashable σ] [Hashable τ] (st : ExpSt σ τ) (i : Nat) : List Nat :=
+  let rec go (i : Nat) (acc : List Nat) : List Nat :=
+    match st.parent[i]? with
+    | none => acc
+    | some (0, r) => r :: acc
+    | some (p + 1, r) => go p (r :: acc)
+  go i []
+
+/-- Runs the untrusted exploration and then the verified `closedCheckH`; on failure reports a
+    distinguishing word. -/
+def runEquiv {σ τ : Type} [DecidableEq σ] [DecidableEq τ] [Hashable σ] [Hashable τ] (X : Sys σ) (Y : Sys τ)
+    (reps : List Nat) (x0 : σ) (y0 : τ) (initToo : Bool) (tag : String) (maxPairs : Nat := 2500) : List String :=
+  match exploreFast X Y reps x0 y0 maxPairs with
+  | none => [s!"{tag} ok", s!"S inconclusive more than {maxPairs} state pairs"]
+  | some (es, h0) =>
+    if closedCheckH X Y reps x0 y0 initToo es.V h0 es.hints then
+      [s!"{tag} ok", s!"S ok closedCheck pairs={es.V.size} reps={reps.length}"]
+    else if initToo && X.acc x0 != Y.acc y0 then
+      [s!"{tag} DIFF", s!"S FAIL acceptance differs on the empty word: {X.acc x0} vs {Y.acc y0}"]
+    else
+      match (List.range es.V.size).find? fun i => match es.V[i]? with
+          | some p => X.acc p.1 != Y.acc p.2
+          | none => false with
+      | some i =>
+        let w := wordTo es i
+        [s!"{tag} DIFF {showWord w}",
+         s!"S FAIL acceptance differs on the word [{showWord w}]: {X.acc (X.run x0 w)} vs {Y.acc (Y.run y0 w)}"]
+      | none => [s!"{tag} DIFF", "S FAIL closedCheck rejected the candidate set (explorer defect)"]
+
 def step (st : DState) (line : String) : DState × Option String :=
   match line.trimAscii.toString.splitOn " " with
   | "case" :: r => (st, some ("case " ++ " ".intercalate r))
@@ -284,6 +383,74 @@ def step (st : DState) (line : String) : DState × Option String :=
     match e.toNat?, t.toNat? with
     | some e, some t => (updTarget st fun A => addState A (e != 0) t (pairs (nats r)), none)
     | _, _ => (st, some "bad-op")
+  | "rclass" :: id :: r =>
+    match id.toNat? with
+    | some i => ({ st with rtables := (ensure st.rtables i []).set! i (pairs (nats r)) }, none)
+    | none => (st, some "bad-op")
+  | "pat" :: m :: t :: r =>
+    match m.toNat?, t.toNat?, parseAst r with
+    | some m, some t, some (a, []) =>
+      ({ st with pats := (ensure st.pats m []).modify m fun l => l ++ [(t, a.desugar)] }, none)
+    | _, _, _ => (st, some "bad-op")
+  | "lapat" :: m :: t :: r =>
+    match m.toNat?, t.toNat?, parseAst r with
+    | some m, some t, some (a, []) =>
+      ({ st with lapats := (ensure st.lapats m []).modify m fun l => l ++ [(t, a.desugar)] }, none)
+    | _, _, _ => (st, some "bad-op")
+  | ["dfa", "x", i] =>
+    match i.toNat? with
+    | some i => ({ st with target := .aux i, aux := (ensure st.aux i emptyDfa).set! i emptyDfa }, none)
+    | none => (st, some "bad-op")
+  | ["classids", n] =>
+    match n.toNat? with
+    | some n =>
+      let ok := st.modes.all fun M => classIdsInRange M.dfa n && M.las.all fun p => classIdsInRange p.2.dfa n
+      (st, some s!"classids {if ok then 1 else 0}")
+    | none => (st, some "bad-op")
+  | ["equiv", m] =>
+    match m.toNat? with
+    | some m =>
+      match st.modes[m]? with
+      | none => (st, some "bad-op")
+      | some M =>
+        let T := st.tables.toList
+        let R := st.rtables.toList
+        let reps := mkReps (T ++ R)
+        let X := dfaSys M.dfa (cmT T)
+        let Y := reSys (cmT R)
+        if !startNotAccepting M.dfa then
+          (st, some "equiv DIFF\nS FAIL the start state is accepting: the empty string is accepted")
+        else
+          (st, some ("\n".intercalate (runEquiv X Y reps [0] (normP (st.pats.getD m [])) false "equiv")))
+    | none => (st, some "bad-op")
+  | ["equivla", m, t] =>
+    match m.toNat?, t.toNat? with
+    | some m, some t =>
+      match (st.modes[m]?).bind fun M => M.las.lookup t with
+      | none => (st, some "bad-op")
+      | some L =>
+        let T := st.tables.toList
+        let R := st.rtables.toList
+        let reps := mkReps (T ++ R)
+        let X := dfaSys L.dfa (cmT T)
+        let Y := reSys (cmT R)
+        -- the lookahead automaton accepts with its own terminal; compare languages under terminal 0
+        let pats := ((st.lapats.getD m []).filter fun p => p.1 == t).map fun p => (L.dfa.prio.headD 0, p.2)
+        if !startNotAccepting L.dfa then
+          (st, some "equiv DIFF\nS FAIL the start state of the lookahead automaton is accepting")
+        else
+          (st, some ("\n".intercalate (runEquiv X Y reps [0] (normP pats) false "equiv")))
+    | _, _ => (st, some "bad-op")
+  | ["equivdfa"] =>
+    let A := st.aux.getD 0 emptyDfa
+    let B := st.aux.getD 1 emptyDfa
+    let T := st.tables.toList
+    let reps := mkReps T
+    if !(A.wf && B.wf) then (st, some "equivdfa DIFF\nS FAIL a logged automaton is not well-formed") else
+    if B.numStates > A.numStates then
+      (st, some s!"equivdfa DIFF\nS FAIL the minimized automaton has more states ({B.numStates}) than before ({A.numStates})")
+    else
+      (st, some ("\n".intercalate (runEquiv (dfaSys A (cmT T)) (dfaSys B (cmT T)) reps [0] [0] true "equivdfa")))
   | "input" :: r => ({ st with input := nats r, iters := #[], specs := #[], table := #[] }, none)
   | ["finder", "model"] => ({ st with useTable := false }, none)
   | ["finder", "table"] => ({ st with useTable := true }, none)
